@@ -11,7 +11,7 @@ import ast
 import itertools
 
 from ..astutil import call_tail, calls_in, dotted, src, walk_shallow
-from ..genekernel import chrom_parent, chunk_parent, gene_interp, mk_feature, mk_transcript
+from ..genekernel import chrom_parent, chunk_parent, gene_interp, mk_feature, mk_parent, mk_transcript
 from ..interp import ClassTok, Obj, Raised, Uninterpretable
 from ..lockernel import blocks_of, is_empty_obj, run, strand_of, strands
 from .c01 import enum_positions
@@ -177,8 +177,17 @@ def _container_case(repo, it, S, spec):
         parent = chunk_parent(it, REF, chunk[0], chunk[1], alphabet="NT_STRICT_UNKNOWN")
     else:
         parent = chrom_parent(it, REF, alphabet="NT_STRICT_UNKNOWN")
+    vparent = parent
+    # an annotation that was built without sequence (no parent at all, or a parent that only names the chromosome) and variants that
+    # carry the reference: the derived objects sit on the alternative sequence of the variants
+    bare = container.endswith("(annotation without sequence)")
+    if bare:
+        container = container[: -len(" (annotation without sequence)")]
+        if chunk:
+            return 0, []
+        parent = None if vs[0][1] % 2 else mk_parent(it, id="chr1", sequence_type=it.enum("SequenceType")["CHROMOSOME"])
     members = [([(12, 16)], "PLUS"), ([(4, 9), (12, 20)], "MINUS"), ([(8, 16), (22, 30)], "PLUS")]
-    desc = f"{container} with variants {vs} on {'chromosome' if not chunk else 'chunk ' + str(chunk)}"
+    desc = f"{container}{' built without sequence' if bare else ''} with variants {vs} on {'chromosome' if not chunk else 'chunk ' + str(chunk)}"
     wants = []
     for blocks, sn in members:
         parts = [edited_block(REF, s_, e, vs) for s_, e in blocks]
@@ -189,8 +198,8 @@ def _container_case(repo, it, S, spec):
     if any(not w for w in wants):
         return 0, []
     try:
-        objs = [mk_variant(it, s_, e, alt, parent) for s_, e, alt in vs]
-        var = objs[0] if len(objs) == 1 else it.apply(ClassTok("VariantIntervalCollection"), [objs], {"parent_or_seq_chunk_parent": parent}, None, 0)
+        objs = [mk_variant(it, s_, e, alt, vparent) for s_, e, alt in vs]
+        var = objs[0] if len(objs) == 1 else it.apply(ClassTok("VariantIntervalCollection"), [objs], {"parent_or_seq_chunk_parent": vparent}, None, 0)
         txs = [mk_transcript(it, b, S[sn], parent_or_seq_chunk_parent=parent, transcript_id=f"t{i}", sequence_name="chr1") for i, (b, sn) in enumerate(members)]
         fts = [mk_feature(it, b, S[sn], parent_or_seq_chunk_parent=parent, feature_name=f"f{i}", sequence_name="chr1") for i, (b, sn) in enumerate(members)]
         from ..genekernel import mk_collection, mk_feature_collection, mk_gene
@@ -243,6 +252,8 @@ def rk_containers(ctx):
                 continue  # several length-changing variants: the sequential lift-over finding (C13.RL) applies to every container alike
             for container in ("gene", "feature collection", "annotation collection"):
                 specs.append((vs, ch, container))
+                if ch is None and len(vs) == 1:
+                    specs.append((vs, ch, container + " (annotation without sequence)"))
     ctx.r.floor("C13.RN", "container incorporation cases", len(specs), 100)
     from ..par import pmap
     results = pmap(_runner(ctx.repo, _container_case), specs)
@@ -397,12 +408,23 @@ def rm_haplotype_mapping(ctx):
     vcs = [("v1", [(10, 11, "T")]), ("v2", [(14, 15, "G"), (24, 25, "C")]), ("v3", [(36, 37, "A")]), ("v4", [(1, 2, "C")])]
     answers = {}
     n = 0
-    for path in ("pure", "index"):
+    members0, vcs0 = members, vcs
+    for path, off in (("pure", None), ("index", None), ("pure", 70000), ("pure", 140000), ("index", 140000), ("pure", 2 ** 20 + 5)):
         it = gene_interp(repo, max_steps=10 ** 10)
         if path == "index":
             with_cgranges(it)
         S = strands(it)
-        parent = chrom_parent(it, REF, alphabet="NT_STRICT_UNKNOWN")
+        if off is None:
+            parent = chrom_parent(it, REF, alphabet="NT_STRICT_UNKNOWN")
+            members, vcs = members0, vcs0
+        else:
+            # the same 38 bases as a sequence chunk cut out of the chromosome at `off` (beyond the first 128 kb bin for the larger ones):
+            # the association must not depend on where the chunk lies
+            parent = it.call_func(repo.fn("io.parser:seq_chunk_to_parent"), [REF, "chr1", off, off + len(REF)],
+                                  {"alphabet": it.enum("Alphabet")["NT_STRICT_UNKNOWN"]}, None, 0)
+            members = [(gid, [(a + off, b + off) for a, b in ex], sn) for gid, ex, sn in members0]
+            vcs = [(vid, [(a + off, b + off, alt) for a, b, alt in vs]) for vid, vs in vcs0]
+            path = f"{path}, chunk at {off}"
         genes = [mk_gene(it, [mk_transcript(it, ex, S[sn], transcript_id=gid + ".t", parent_or_seq_chunk_parent=parent)], gene_id=gid,
                          parent_or_seq_chunk_parent=parent) for gid, ex, sn in members[:2]]
         fcs = [mk_feature_collection(it, [mk_feature(it, members[2][1], S[members[2][2]], feature_name="f", parent_or_seq_chunk_parent=parent)],
@@ -435,7 +457,8 @@ def rm_haplotype_mapping(ctx):
             lo, hi = min(v[0] for v in vs), max(v[1] for v in vs)
             for gid, ex, sn in members:
                 if ex[0][0] < hi and lo < ex[-1][1]:
-                    parts = [edited_block(REF, s_, e, vs) for s_, e in ex]
+                    o_ = off or 0
+                    parts = [edited_block(REF, s_ - o_, e - o_, [(a - o_, b - o_, alt) for a, b, alt in vs]) for s_, e in ex]
                     if any(p_ is None for p_ in parts):
                         continue
                     plus = "".join(parts)
@@ -449,7 +472,7 @@ def rm_haplotype_mapping(ctx):
             n += 1
             r.check(got[k_] == want[k_], "C13.RM", q, f"haplotype sequence {k_} ({path} path)",
                     f"{path} path: member {k_[1]} under {k_[0]} has spliced sequence {got[k_]!r}; reference with the edits applied is {want[k_]!r}", fn)
-    if len(answers) == 2:
+    if "pure" in answers and "index" in answers:
         r.check(answers["pure"] == answers["index"], "C13.RM", q, "pure-Python branch = interval-index branch",
                 f"the two branches associate differently: {answers['pure']} vs {answers['index']}", fn)
     r.count(n)
